@@ -13,6 +13,12 @@ use cw_multi_test::Executor;
 use std::collections::{BTreeMap, BTreeSet};
 
 pub fn run(o: &Opts) {
+    run_from(o, false)
+}
+
+/// `vary_root`: the root script is dispatched through wasm_sudo or migrate instead of execute
+pub fn run_from(o: &Opts, vary_root: bool) {
+    let root_entry = if vary_root { 1 + choose(2) } else { 0 };
     let mut w = world(o.max_depth + 1);
     let root = gen_tree(o);
     let mut uids = BTreeMap::new();
@@ -22,7 +28,11 @@ pub fn run(o: &Opts) {
     note(format!("tree={}", describe(&root)));
     sc::trace_clear();
     let (user, k0) = (w.user.clone(), w.ks[0].clone());
-    let r = catch(|| w.app.execute_contract(user, k0, &script, &[]));
+    let r = catch(|| match root_entry {
+        0 => w.app.execute_contract(user, k0, &script, &[]),
+        1 => w.app.wasm_sudo(k0, &script),
+        _ => w.app.migrate_contract(user, k0, &script, 1),
+    });
     if let Err(p) = r {
         failure("no_panic", "panic", p);
         return;
@@ -66,8 +76,11 @@ pub fn scenarios(tier: &str) -> Vec<Scenario> {
     v.push(Scenario::new("trees_depth2_nodes3_output_and_ids_varied", &must, || {
         run(&Opts { max_depth: 2, max_nodes: 3, max_children: 2, vary_output: true, vary_ids: true, reply_subs: false, inst_leaves: false })
     }));
+    v.push(Scenario::new("trees_depth2_nodes2_root_dispatched_by_sudo_or_migrate", &must, || {
+        run_from(&Opts { max_depth: 2, max_nodes: 2, max_children: 1, vary_output: true, vary_ids: true, reply_subs: false, inst_leaves: false }, true)
+    }));
     v.push(Scenario::new("trees_nodes3_replies_emitting_submessages_instantiate_leaves", &must, || {
-        run(&Opts { max_depth: 1, max_nodes: 3, max_children: 2, vary_output: true, vary_ids: true, reply_subs: true, inst_leaves: true })
+        run(&Opts { max_depth: 1, max_nodes: 3, max_children: 2, vary_output: true, vary_ids: false, reply_subs: true, inst_leaves: true })
     }));
     if tier == "thorough" {
         v.push(Scenario::new("trees_depth2_nodes4_chain_replies_emitting_submessages_instantiate_leaves", &must, || {
